@@ -7,6 +7,11 @@ SCHEMA = {"op": "Str", "w": "Int", "a": "Int", "b": "Int", "c": "Int", "d": "Int
           "ok": "Bool", "v": "Int", "panic": "Bool"}
 
 
+CINIT64 = "Unit = 1000000000 /\\ MaxU = 18446744073709551615 /\\ MaxS = 9223372036854775807"
+CINIT128 = ("Unit = 100000000000000000000 /\\ MaxU = 340282366920938463463374607431768211455 "
+            "/\\ MaxS = 170141183460469231731687303715884105727")
+
+
 def classify(e, mon):
     return {"monitor": mon, "op": e["op"], "w": e["w"], "a": e["a"], "b": e["b"], "c": e["c"], "d": e["d"]}
 
@@ -26,25 +31,34 @@ def run(ctx):
     for f in fails:
         e = ev[f["i"] - 1]
         ctx.report(classify(e, f["mon"]), {"driver": "h-model c01 small", "event": e})
-    # 3. wide tier: boundary-biased operands at the real widths, Apalache
-    n = 150 if ctx.quick else 1500
+    # 3. wide tier: boundary-biased operands at the real widths; Apalache evaluates the SAME operators
+    #    with MaxU = 2^64-1 / 2^128-1 (one run per helper and width, in parallel)
+    per_op = 40 if ctx.quick else 200
+    quick_ops = ["mul_div", "mul_div_ceil", "mul_div_signed", "round_up_div", "round_up_mag_div",
+                 "bound_magnitude", "mul_signed", "add_signed", "usd_to_mt", "apply_factors"]
     wide_total = 0
-    for bits, cinit in ((64, "CInit64"), (128, "CInit128")):
+    for bits, cinit in ((64, CINIT64), (128, CINIT128)):
         wp = ctx.path("wide%d.ndjson" % bits)
-        ctx.run_bin("c01", ["wide", "--bits", bits, "--n", n, "--seed", ctx.seed, "--out", wp])
+        ctx.run_bin("c01", ["wide", "--bits", bits, "--n", per_op * 21, "--seed", ctx.seed, "--out", wp])
         wev = vlib.read_ndjson(wp)
-        res = vlib.apalache_events(ctx, "Wide_Num", ["Num", "NumProps"], wev, SCHEMA, cinit,
-                                   {"exact": ["MonNoPanic", "MonExact"], "conf": ["Conforms"]})
-        wide_total += len(wev)
-        ctx.evaluations += len(wev)
-        ctx.distinct += len({(e["op"], e["a"], e["b"], e["c"], e["d"]) for e in wev})
+        ops = sorted({e["op"] for e in wev})
+        if ctx.quick:
+            ops = [o for o in ops if o in quick_ops]
+        jobs = []
+        for op in ops:
+            g = [e for e in wev if e["op"] == op]
+            jobs.append(("%s-%d" % (op, bits), g, "MonNoPanic(e) /\\ ExactWith(e, Math_%s(e))" % op))
+        res = vlib.apalache_groups(ctx, "NumProps", ["Num", "NumProps"], SCHEMA, cinit, jobs,
+                                   parallel=6 if ctx.quick else 8)
+        for label, g, _ in jobs:
+            wide_total += len(g)
+            ctx.evaluations += len(g)
+            ctx.distinct += len({(e["op"], e["a"], e["b"], e["c"], e["d"]) for e in g})
+            for k in res.get(label, []):
+                e = g[k]
+                ctx.report(classify(e, "Exact" if not e["panic"] else "NoPanic"),
+                           {"driver": "c01 wide --bits %d --seed %d" % (bits, ctx.seed), "event": e})
         ctx.cov["samples"].append(wev[0])
-        for i in res["exact"]:
-            e = wev[i - 1]
-            ctx.report(classify(e, "Exact"), {"driver": "h-model c01 wide --bits %d" % bits, "event": e})
-        if res["conf"]:
-            ctx.drift += len(res["conf"])
-            ctx.drift_first = ctx.drift_first or wev[res["conf"][0] - 1]
     ctx.assumptions += ["fractional exponents (rust_decimal path of checked_pow_fixed) are outside the property",
                         "full-width operands are a boundary-biased sample, the small domain is exhaustive"]
     ctx.cov["trusted_base"] += ["TLC", "Apalache/Z3", "harness h-model c01 driver"]
